@@ -1,6 +1,7 @@
 package gcschecks
 
 import (
+	"encoding/base64"
 	"os"
 	"testing"
 
@@ -50,3 +51,5 @@ func labelsOf(r *gcs.Runner, extra ...string) []string {
 	}
 	return ls
 }
+
+func gcsB64(b []byte) string { return base64.StdEncoding.EncodeToString(b) }
